@@ -2,6 +2,7 @@
    `PartialEq` compares `v % 8` and whose `Hash` feeds `v / 8`; `Default` is 0. -/
 import EyeballVerif.Driver.Text
 import EyeballVerif.Model.Obs
+import EyeballVerif.Model.ObsAsync
 namespace EV
 open OWorld
 
@@ -27,6 +28,20 @@ structure ObsDrv where
   w : OWorld Nat := OWorld.newUnique 0
   /-- async-lock flavour: every subscriber holds two references to the state (known finding D8) -/
   async : Bool := false
+  /-- async-lock flavour: the tokio RwLock (permit semaphore), pending futures, held guards -/
+  sem : ASem := { max := 1000, avail := 1000, queue := [] }
+  subLock : List FSt := []
+  futs : List AFut := []
+  guards : List Nat := []
+
+def ObsDrv.aw (d : ObsDrv) : AWorld := { w := d.w, sem := d.sem, subLock := d.subLock, futs := d.futs, guards := d.guards }
+def ObsDrv.ofAw (d : ObsDrv) (a : AWorld) : ObsDrv :=
+  { d with w := a.w, sem := a.sem, subLock := a.subLock, futs := a.futs, guards := a.guards }
+
+def showGrants (wk : List AOwner) : String :=
+  let fs := wk.filterMap fun o => match o with | .fut k => some k | _ => none
+  if fs.isEmpty then "" else " wokef=" ++ showList (dedupSorted fs)
+def grantSubs (wk : List AOwner) : List Nat := wk.filterMap fun o => match o with | .sub i => some i | _ => none
 
 def parseWOp : List String → Option (WOp Nat)
   | ["set", v] => v.toNat?.map .set
@@ -51,7 +66,69 @@ def obsStep (d : ObsDrv) (toks : List String) : Option (ObsDrv × String) :=
       if k = "unique" then some ({ w := OWorld.newUnique v, async }, "ok")
       else if k = "shared" then some ({ w := OWorld.newShared v, async }, "ok") else bad
     | none => bad
+  | ["afpoll", k] =>
+    match k.toNat? with
+    | none => bad
+    | some k =>
+      match d.futs[k]? with
+      | none => bad
+      | some f =>
+        if f.st = .queued then some (d, "Pending(" ++ toString k ++ ")")
+        else
+          match d.aw.finishFut eqvT hashT k with
+          | some (a, r, lw, wk) => some (d.ofAw a, r ++ showWokeO a.w (wk ++ grantSubs lw) ++ showGrants lw)
+          | none => bad
+  | ["afdrop", k] =>
+    match k.toNat?.bind d.aw.dropFut with
+    | some (a, lw) => some (d.ofAw a, "ok" ++ showWokeO a.w (grantSubs lw) ++ showGrants lw)
+    | none => bad
+  | ["agdrop", g] =>
+    match g.toNat?.bind d.aw.dropGuard with
+    | some (a, lw) => some (d.ofAw a, "ok" ++ showWokeO a.w (grantSubs lw) ++ showGrants lw)
+    | none => bad
+  | ["atryr", _] => some (d, if d.sem.avail ≥ 1 then "some" else "none")
+  | ["atryw", _] => some (d, if d.sem.avail = d.sem.max then "some" else "none")
+  | "agset" :: g :: rest =>
+    match g.toNat?, parseWOp rest with
+    | some g, some op =>
+      if d.guards.getD g 0 ≠ d.sem.max then bad else
+      match w.write eqvT hashT 0 ((List.range w.clones.length).find? (w.ownerAlive ·) |>.getD 0) op with
+      | some (w', r, wk) => some ({ d with w := w' }, r.show ++ showWokeO w' wk)
+      | none => bad
+    | _, _ => bad
   | kind :: h :: rest =>
+    if (kind = "awg" || kind = "arg") && rest = [] then
+      let (a, k, ok) := d.aw.startFut (if kind = "awg" then .wguard else .rguard)
+      if ok then
+        match a.finishFut eqvT hashT k with
+        | some (a', r, _, _) => some (d.ofAw a', r)
+        | none => bad
+      else some (d.ofAw a, "Pending(" ++ toString k ++ ")")
+    else
+    if d.async && (kind = "w" || kind = "g") then
+      match h.toNat?, parseWOp rest with
+      | some h, some op =>
+        if !w.ownerAlive h then bad else
+        let (a, k, ok) := d.aw.startFut (.write h op)
+        if ok then
+          match a.finishFut eqvT hashT k with
+          | some (a', r, lw, wk) => some (d.ofAw a', r ++ showWokeO a'.w (wk ++ grantSubs lw) ++ showGrants lw)
+          | none => bad
+        else some (d.ofAw a, "Pending(" ++ toString k ++ ")")
+      | _, _ => bad
+    else if d.async && kind = "opoll" && rest = [] then
+      match h.toNat?.bind d.aw.pollSub with
+      | some (a, r, lw) => some (d.ofAw a, r.show ++ showGrants lw)
+      | none => bad
+    else if d.async && kind = "osdrop" && rest = [] then
+      match h.toNat? with
+      | none => bad
+      | some i =>
+        let (a, lw) := d.aw.dropSubLock i
+        match a.w.subDrop i with
+        | some w' => some ({ d.ofAw a with w := { w' with arcState := w'.arcState - 1 } }, "ok" ++ showGrants lw)
+        | none => bad
+    else
     if kind = "w" || kind = "g" then
       match h.toNat?, parseWOp rest with
       | some h, some op =>
